@@ -99,12 +99,36 @@ func (l *Ledger) Check(ok bool, rule, fn, construct, pos, reason string) bool {
 
 // Record adds an obligation with an explicit status.
 func (l *Ledger) Record(st Status, rule, fn, construct, pos, reason string) {
+	if devDisabled(rule) {
+		return
+	}
 	l.add(&Entry{Rule: rule, Func: fn, Construct: construct, Pos: pos, Status: st, Reason: reason})
 }
 
 // Floor demands at least n instances of the rule (a rule that matches nothing
 // must not pass vacuously).
-func (l *Ledger) Floor(rule string, n int) { l.Floors[rule] = n }
+func (l *Ledger) Floor(rule string, n int) {
+	if devDisabled(rule) {
+		return
+	}
+	l.Floors[rule] = n
+}
+
+// devDisabled: development aid for measuring which rule is the only one that
+// reports a seeded change (GSA_DISABLE=rule,rule; only honoured together with
+// GSA_REPO, i.e. never by the registered checks on /repo).
+func devDisabled(rule string) bool {
+	d := os.Getenv("GSA_DISABLE")
+	if d == "" || os.Getenv("GSA_REPO") == "" {
+		return false
+	}
+	for _, r := range strings.Split(d, ",") {
+		if r == rule {
+			return true
+		}
+	}
+	return false
+}
 
 // Saw notes that a function body was analysed.
 func (l *Ledger) Saw(fn string) { l.Analysed[fn] = true }
